@@ -151,6 +151,8 @@ type Extra struct {
 	ProbeVia  string `json:"probeVia"`  // "handed" | "inner"
 	RProbe    int    `json:"rprobe"`    // the same on the remote limiter when it is not the one handed out (-1: not probed)
 	ZeroQPS   int    `json:"zeroQps"`   // admissions of 300 back-to-back TryAcquire on a token bucket with qps 0 (-1: n/a)
+	TBAdmit   int    `json:"tbAdmit"`   // admissions of burst+20 back-to-back TryAcquire on the token bucket handed out (-1: not probed)
+	TBAllowed int    `json:"tbAllowed"` // what the bucket printed by String() can have admitted in that time: burst + qps*elapsed + 2
 	Str       string `json:"str"`       // String() of the limiter handed out
 	WaitInfl  int64  `json:"waitInflight"`
 	CurrToken int64  `json:"currentToken"`
@@ -367,7 +369,7 @@ func runImpl(c *rig.Ctx, cs Case, rnd func(int) int) (res runResult) {
 
 func observe(cs Case, ul flowcontrols.UpstreamLimiter, cache remote.FlowControlCache, bare clientsets.ClientSets, lastRet bool, rnd func(int) int) (Obs, Extra) {
 	o := Obs{Ret: lastRet, Ready: bare.IsReady(cluster)}
-	x := Extra{Probe: -1, RProbe: -1, ZeroQPS: -1}
+	x := Extra{Probe: -1, RProbe: -1, ZeroQPS: -1, TBAdmit: -1}
 	fc := ul.GetOrDefault(fcName)
 	var rf flowcontrol.FlowControl
 	if cache != nil {
@@ -474,6 +476,23 @@ func observe(cs Case, ul flowcontrols.UpstreamLimiter, cache remote.FlowControlC
 		}
 		x.ZeroQPS = n
 	}
+	// one-sided real-time probe of a token bucket handed to requests: whatever its state, in a window of length d it
+	// cannot admit more than burst + qps*d (+2 of slack). Not through the token-bucket count wrapper while the server
+	// is available (its TryAcquire waits for tokens from the limiter server and leaks a goroutine per wait).
+	if o.Lim != nil && o.Lim.Kind == "TokenBucket" && *o.Lim.QPS > 0 && *o.Lim.QPS <= 5000 && *o.Lim.Burst <= 300 &&
+		(o.Choice != "remote" || d.Wrapper == 1 || d.Unavailable) && rnd(4) == 0 {
+		attempts := int(*o.Lim.Burst) + 20
+		t0 := time.Now()
+		n := 0
+		for i := 0; i < attempts; i++ {
+			if fc.TryAcquire() {
+				n++
+			}
+		}
+		el := time.Since(t0)
+		x.TBAdmit = n
+		x.TBAllowed = int(*o.Lim.Burst) + int(float64(*o.Lim.QPS)*el.Seconds()) + 2
+	}
 	return o, x
 }
 
@@ -510,13 +529,16 @@ func evaluate(c *rig.Ctx, cs Case, rnd func(int) int) (*failure, runResult) {
 	if err := c.Model("C09.case", map[string]interface{}{"cfg": cs.Cfg, "ops": cs.Ops, "obs": res.Obs}, &m); err != nil {
 		return &failure{kind: "diff", class: "c09.model-error", what: "model error: " + err.Error()}, res
 	}
-	// judge first: the property on the implementation's own output
-	if !cs.KindChange {
-		for i, v := range m.VerdictImpl {
-			if len(v) > 0 {
-				return &failure{kind: "judge", class: v[0], step: i, impl: res.Obs[i],
-					what: fmt.Sprintf("after op %d (%s): %s; implementation observed %s", i, rig.Canon(cs.Ops[i]), strings.Join(v, ","), rig.Canon(res.Obs[i]))}, res
-			}
+	// judge first: the property on the implementation's own output. When the schema TYPE changes inside the case
+	// (outside the property's quantifier: the remote limiter of the old type stays until the next same-type answer)
+	// only the clauses that do not depend on the remote limiter's size and type are applied.
+	for i, v := range m.VerdictImpl {
+		if cs.KindChange {
+			v = keep(v, "c09.ready-hysteresis", "c09.fallback-choice", "c09.local-limit-not-enforced")
+		}
+		if len(v) > 0 {
+			return &failure{kind: "judge", class: v[0], step: i, impl: res.Obs[i],
+				what: fmt.Sprintf("after op %d (%s): %s; implementation observed %s", i, rig.Canon(cs.Ops[i]), strings.Join(v, ","), rig.Canon(res.Obs[i]))}, res
 		}
 	}
 	for i, x := range res.Extra {
@@ -538,6 +560,10 @@ func evaluate(c *rig.Ctx, cs Case, rnd func(int) int) (*failure, runResult) {
 				return &failure{kind: "judge", class: "c09.admits-more-than-size", step: i, impl: x,
 					what: fmt.Sprintf("after op %d the remote limiter says size %d but admitted %d concurrent requests", i, *o.RLim.Size, x.RProbe)}, res
 			}
+		}
+		if x.TBAdmit > x.TBAllowed {
+			return &failure{kind: "judge", class: "c09.tb-admits-more-than-bucket", step: i, impl: x,
+				what: fmt.Sprintf("after op %d the token bucket handed out says %q but admitted %d back-to-back requests where at most %d are possible", i, x.Str, x.TBAdmit, x.TBAllowed)}, res
 		}
 		if x.ZeroQPS >= 0 {
 			b := int64(0)
@@ -577,6 +603,18 @@ func evaluate(c *rig.Ctx, cs Case, rnd func(int) int) (*failure, runResult) {
 		}
 	}
 	return nil, res
+}
+
+func keep(v []string, classes ...string) []string {
+	var r []string
+	for _, x := range v {
+		for _, c := range classes {
+			if x == c {
+				r = append(r, x)
+			}
+		}
+	}
+	return r
 }
 
 func min64(a, b int64) int64 {
@@ -675,12 +713,23 @@ func main() {
 		}
 		n := c.Budget(2500, 60000)
 		t0 := time.Now()
-		for i := 0; i < n && c.NFailures() < 5; i++ {
+		// a correspondence difference does not end the run: the search goes on for an input on which the property
+		// itself fails (at most 3 differences and 3 judge failures are recorded)
+		nJudge, nDiff := 0, 0
+		for i := 0; i < n && nJudge < 3; i++ {
 			cs := genCase(c, i)
 			f, res := evaluate(c, cs, c.Rng.Intn)
 			account(c, cs, res)
 			c.Trace()
 			if f != nil {
+				if f.kind == "judge" {
+					nJudge++
+				} else {
+					nDiff++
+					if nDiff > 3 {
+						continue
+					}
+				}
 				small, g := shrink(c, cs, f)
 				report(c, small, g)
 			}
@@ -712,6 +761,12 @@ func account(c *rig.Ctx, cs Case, res runResult) {
 		}
 		if res.Extra[i].Probe >= 0 {
 			c.Count("probe:" + res.Extra[i].ProbeVia)
+		}
+		if res.Extra[i].TBAdmit >= 0 {
+			c.Count("probe:token-bucket-rate")
+		}
+		if res.Extra[i].ZeroQPS >= 0 {
+			c.Count("probe:zero-qps")
 		}
 	}
 	for _, op := range cs.Ops {
